@@ -243,7 +243,8 @@ def _case(draw: Any, args: dict) -> dict:
         for d in decls:
             if d["t"] != "class":
                 continue
-            pool = [["raw", n] for n in earlier] + [["ext", "collections", "OrderedDict"], ["ext", "abc", "ABC"]]
+            # (abc.ABC only sometimes: a direct ABC subclass is "abstract" for the tool and loses its parameter and superclass lists)
+            pool = [["raw", n] for n in earlier] + [["ext", "collections", "OrderedDict"], ["ext", "argparse", "Namespace"]] + ([["ext", "abc", "ABC"]] if draw(st.integers(0, 5)) == 0 else [])
             if draw(st.integers(0, 2)) > 0:
                 k = draw(st.integers(1, min(3, len(pool))))
                 chosen = draw(st.permutations(pool))[:k]
@@ -278,7 +279,7 @@ def _case(draw: Any, args: dict) -> dict:
     return {"pkg": gt.package(pkgname, modules, inits), "options": {"nc": draw(st.booleans()), "docstyle": style}}
 
 
-EXT_MRO = {"OrderedDict": ["OrderedDict", "dict", "object"], "ABC": ["ABC", "object"]}
+EXT_MRO = {"OrderedDict": ["OrderedDict", "dict", "object"], "ABC": ["ABC", "object"], "Namespace": ["Namespace", "_AttributeHolder", "object"]}
 
 
 def _c3(bases: list, by_name: dict) -> list[str] | None:
